@@ -134,6 +134,58 @@ def evalPath (nested : List (List NJ)) (sel : List Nat) (comps : List Comp) : CM
       | .error e => .error e
       | .ok vs => .ok (i, vs)) sel
 
+/-- the nested JSON rendering of every subset of a wired message: subset `i` is rendered from `trees[i]` with the
+    flat lists of subset `i` (for compressed data every `trees[i]` is the shared tree) -/
+def nestedOf (m : QMsg) : CM (List (List NJ)) :=
+  mapE (fun p => renderNested p.1 p.2) (m.outs.zip m.trees)
+
+/-- the decidable shape condition of `C16_query_eq_eval`: in every subset, every replication node holds
+    `n_repeats * n_members` member nodes, `n_repeats` being the number the renderer uses (`repsOKList`).
+    The wiring pass establishes it (`C16_wire_shape`); the driver evaluates it on every case. -/
+def shapeOK (m : QMsg) : Bool :=
+  (m.outs.zip m.trees).all fun p => repsOKList p.1 p.2
+
+/-! ### "ordinary element" for the bare-id clause (decidable) -/
+
+mutual
+/-- the id labels no node of the list and nothing below them -/
+def noLabelList (ds : List DDesc) (id : List Char) : List Node → Bool
+  | [] => true
+  | n :: ns => noLabel1 ds id n && noLabelList ds id ns
+
+def noLabel1 (ds : List DDesc) (id : List Char) : Node → Bool
+  | .value k i attrs => decide (nodeLabel ds (.value k i attrs) ≠ some id) && noLabelList ds id attrs
+  | .noval i => decide (nodeLabel ds (.noval i) ≠ some id)
+  | .seq i ms => decide (nodeLabel ds (.seq i ms) ≠ some id) && noLabelList ds id ms
+  | .fixedRep i n ms => decide (nodeLabel ds (.fixedRep i n ms) ≠ some id) && noLabelList ds id ms
+  | .delayedRep i n f ms =>
+    decide (nodeLabel ds (.delayedRep i n f ms) ≠ some id) && noLabel1 ds id f && noLabelList ds id ms
+end
+
+mutual
+/-- `id` is the id of an ORDINARY element of the tree: it labels no attribute node (at any depth, with everything
+    below it) and no node without a value (sequence, replication, operator, suppressed element); it may label
+    member values and replication factors.  (A replication factor is a value node.) -/
+def ordinaryList (ds : List DDesc) (id : List Char) : List Node → Bool
+  | [] => true
+  | n :: ns => ordinary1 ds id n && ordinaryList ds id ns
+
+def ordinary1 (ds : List DDesc) (id : List Char) : Node → Bool
+  | .value _ _ attrs => noLabelList ds id attrs
+  | .noval i => decide (nodeLabel ds (.noval i) ≠ some id)
+  | .seq i ms => decide (nodeLabel ds (.seq i ms) ≠ some id) && ordinaryList ds id ms
+  | .fixedRep i n ms => decide (nodeLabel ds (.fixedRep i n ms) ≠ some id) && ordinaryList ds id ms
+  | .delayedRep i n f ms =>
+    decide (nodeLabel ds (.delayedRep i n f ms) ≠ some id) &&
+      (match f with
+       | .value _ _ attrs => noLabelList ds id attrs
+       | _ => false) && ordinaryList ds id ms
+end
+
+/-- the values carrying the id in the flat data of a subset, in flat order -/
+def flatFilter (o : SubsetOut) (id : List Char) : List Val :=
+  ((o.descs.zip o.vals).filter (fun p => ddChars p.1 = id)).map (·.2)
+
 end Bufr.Spec
 
 namespace Bufr.Spec
